@@ -147,8 +147,8 @@ Lemma coerce_good v cv : coerce pfs v = Ok cv -> coerced_good cv.
 Proof.
   unfold coerce. destruct v as [| | | | |l|l|d| |]; try (intros H; injection H as <-; exact I).
   - intros H. apply bind_ok in H as [items [Hi H]]. injection H as <-. exact (coerce_items_good _ _ Hi).
-  - intros H. apply bind_ok in H as [items [Hi H]].
-    destruct (existsb _ items); [discriminate H|]. injection H as <-. exact (coerce_items_good _ _ Hi).
+  - intros H. apply bind_ok in H as [u [_ H]]. injection H as <-. cbn [coerced_good].
+    clear. induction l as [|v l IH]; cbn [map]; constructor; [exact I|exact IH].
   - destruct (pfs (VDict d)) as [[p|d']|e] eqn:E.
     + intros H. injection H as <-. exact (pfs_builds _ _ E).
     + destruct d'; intros H; injection H as <-; try exact I. apply Forall_inr_kv.
